@@ -205,7 +205,7 @@ func (p *Prog) lowerTop(fi *FuncInfo, ct *Contract) (fv *FuncIVL, err error) {
 		}
 	}
 	f.expandPseudo(func(hv string) *Term { return p.zeroForHeapVar(f, hv) })
-	f.fillLoopHavocs()
+	f.fillLoopHavocs(p.reg)
 	return f, nil
 }
 
